@@ -185,16 +185,18 @@ theorem nub_remapErr (s : Status) {p : P α} (hp : NoUB p) : NoUB (remapErr s p)
     | ub w' => exact absurd hpe (hp.out d pos w')
   | ok r => simp
 
+theorem nub_readOptObj (c : Cfg) (vt : Nat) (st : Bool) : NoUB (readOptObj c vt st) := by
+  unfold readOptObj; simp only [P.bind_def]; nub_tac [nub_readInt8, nub_readObj]
 theorem nub_readMdValues (c : Cfg) (vt : Nat) : NoUB (readMdValues c vt) := by
-  unfold readMdValues; simp only [P.bind_def]; nub_tac [nub_readInt8, nub_readObj]
+  unfold readMdValues; simp only [P.bind_def]; nub_tac [nub_readOptObj]
 theorem nub_readTableEntry (c : Cfg) : NoUB (readTableEntry c) := by
   unfold readTableEntry; simp only [P.bind_def]; nub_tac [nub_readString, nub_readInt8, nub_readMdValues]
 theorem nub_readNameRow (c : Cfg) : NoUB (readNameRow c) := by
-  unfold readNameRow; simp only [P.bind_def]; nub_tac [nub_readString, nub_readInt8, nub_readObj]
+  unfold readNameRow; simp only [P.bind_def]; nub_tac [nub_readString, nub_readInt8, nub_readOptObj]
 theorem nub_readColumn (c : Cfg) (rows : List NameRow) (m : Md) : NoUB (readColumn c rows m) := by
   induction rows generalizing m with
   | nil => exact NoUB.pure _
-  | cons r rs ih => unfold readColumn; simp only [P.bind_def]; nub_tac [nub_readInt8, nub_readObj, ih]
+  | cons r rs ih => unfold readColumn; simp only [P.bind_def]; nub_tac [nub_readOptObj, ih]
 theorem nub_readTM (c : Cfg) : NoUB (readTM c) := by
   unfold readTM; simp only [P.bind_def]
   nub_tac [nub_secExpect, nub_readInt32, nub_readTableEntry, nub_readNameRow, nub_readColumn, nub_remapErr]
